@@ -135,8 +135,10 @@ _LEX = ("Coq kernel + vm_compute; the scanner step coq/Gen/LexGen.v is regenerat
 CLAIMED["C14"] = {
     "text": ("Theorems in coq/Props/C14.v about the scanner step regenerated from Lexer.scan: in the blank state every layout character (space, tab, CR, LF) "
              "and every # comment up to its line break is consumed without emitting or changing the token list, for all texts (gap_irrelevant, "
-             "leading_gap_irrelevant: two texts differing only in such gaps at token boundaries in the blank state give the same token values and types). "
-             "Gaps after look-ahead tokens, literal spellings, != / <>, redundant parentheses and trailing semicolons are decided by the correspondence: "
+             "leading_gap_irrelevant); outside string / pattern / comment states a tab, CR or LF acts exactly like a blank in every state; and ANY gap (blanks, "
+             "tabs, CR, LF, # comments in any number and order) read in the blank state or while an identifier, number or operator is still being read is "
+             "worth exactly one blank: the rest of the text yields the same token values and types (gap_equiv). "
+             "Literal spellings, != / <>, redundant parentheses, trailing semicolons and the insertion of a gap where there was none are decided by the correspondence: "
              "each generated program is re-rendered >= 10 times over all layout and spelling choices and must give the same canonical result, output and "
              "error value on the implementation (partial)."),
     "note": _LEX,
@@ -164,7 +166,8 @@ CLAIMED["C01"] = {
 CLAIMED["C08"] = {
     "text": ("Theorems in coq/Props/C08.v: for EVERY string the quoted, escaped text scans back - through the scanner step regenerated from Lexer.scan on every "
              "run - to one string token holding exactly the original characters (induction over the string, no bound); equal sets and equal maps render "
-             "identically whatever their internal order (for every rendering of decimals); an int numeral has the int as its value. The parser/evaluator half "
+             "identically whatever their internal order (for every rendering of decimals); an int numeral has the int as its value and, for every n >= 0, scans back "
+             "to one int token with the same digits. The parser/evaluator half "
              "of the round trip, the numeral shapes and the host's decimal repr are decided on the implementation over the property's quantifier "
              "(generated data values to depth 3, adversarial strings, all magnitudes, every insertion order <= 5) - C08_round_trip_partial."),
     "note": _LEX + " Hand model Model/Render.v of the __repr__ methods tied by a vm_compute correspondence (sampling).",
